@@ -990,7 +990,7 @@ def rule_dedup_under_row_truth(db: ProgramDB) -> List[Instance]:
 # ---------------------------------------------------------------------------------- EVAL-PARENT-SET
 EVAL_PARENT_SETTERS = {
     # function -> why its operands need to know who is evaluating them (confirmed by reading; the other evaluators - ExceptIf,
-    # ForAll, Concatenate, the kwargs expression - leave the graph parent in force)
+    # Concatenate, the kwargs expression - leave the graph parent in force)
     "The._evaluate_": "the descriptor asks its parent (the quantifier) what to keep when it suppresses duplicates",
     "An._evaluate__": "the descriptor asks its parent (the quantifier) what to keep when it suppresses duplicates",
     "QueryObjectDescriptor._evaluate_": "the root condition's duplicate key starts from the descriptor that evaluates it, not from the description built last on it",
@@ -999,6 +999,7 @@ EVAL_PARENT_SETTERS = {
     "AND._evaluate__": "an operand can be an operand of another operator as well",
     "ElseIf._evaluate__": "an operand can be an operand of another operator as well",
     "Variable._bind_child_vars_": "an argument (a sub-query given to a predicate, a nested term) can be used by other queries as well",
+    "ForAll._evaluate__": "the universal expression and the condition can be used by other queries as well (a condition object shared with a plain query)",
 }
 
 
